@@ -9,6 +9,7 @@ import (
 	"fmt"
 	"math/big"
 	"regexp"
+	"runtime/debug"
 	"sort"
 	"strings"
 
@@ -103,8 +104,8 @@ func execClass(err error) string {
 
 type commits struct {
 	UncleHash, TxRoot, EtxHash, Receipt, Evm, Utxo, EtxSet common.Hash
-	Gas, StateUsed                                        uint64
-	StateSize, Avg, Total, Uncled                         *big.Int
+	Gas, StateUsed                                         uint64
+	StateSize, Avg, Total, Uncled                          *big.Int
 }
 
 func declaredOf(b *types.WorkObject) commits {
@@ -129,10 +130,10 @@ func (c commits) coq() string {
 
 // bodyObs = what ValidateBody recomputes from the body, computed here with the library primitives.
 type bodyObs struct {
-	UnclesOk             bool
-	UncleRoot, TxRoot    common.Hash
-	ScopeOk              bool
-	EtxBodyRoot          common.Hash
+	UnclesOk          bool
+	UncleRoot, TxRoot common.Hash
+	ScopeOk           bool
+	EtxBodyRoot       common.Hash
 }
 
 func observeBody(n *node, b *types.WorkObject) bodyObs {
@@ -301,20 +302,20 @@ func diffKinds(d []diffEntry) string {
 // ---------- replayable case ----------
 
 type caseJSON struct {
-	ID       uint64   `json:"id"`
-	Seed     uint64   `json:"seed"`
-	Chain    int      `json:"chain"`
-	Blocks   int      `json:"blocks"`
-	Block    int      `json:"block"`
-	Mutant   string   `json:"mutant"`
-	Number   uint64   `json:"number,omitempty"`
-	Txs      int      `json:"txs"`
-	Etxs     int      `json:"outbound_etxs"`
-	Verdict  string   `json:"verdict"`
-	BodyErr  string   `json:"body_error_class,omitempty"`
-	ExecErr  string   `json:"exec_error_class,omitempty"`
-	Diff     []diffEntry `json:"db_diff,omitempty"`
-	Detail   string   `json:"detail,omitempty"`
+	ID      uint64      `json:"id"`
+	Seed    uint64      `json:"seed"`
+	Chain   int         `json:"chain"`
+	Blocks  int         `json:"blocks"`
+	Block   int         `json:"block"`
+	Mutant  string      `json:"mutant"`
+	Number  uint64      `json:"number,omitempty"`
+	Txs     int         `json:"txs"`
+	Etxs    int         `json:"outbound_etxs"`
+	Verdict string      `json:"verdict"`
+	BodyErr string      `json:"body_error_class,omitempty"`
+	ExecErr string      `json:"exec_error_class,omitempty"`
+	Diff    []diffEntry `json:"db_diff,omitempty"`
+	Detail  string      `json:"detail,omitempty"`
 }
 
 func caseID(chain, block, mut int) uint64 {
@@ -358,9 +359,25 @@ func (c *chain) step(rc *runCtx, i int) (stop bool) {
 	head := z.Hc.CurrentHeader()
 	c.genPool(r)
 	fill := !r.Chance(c.cfg.NoFillPct)
-	b, err := z.Assemble(fill)
-	rc.rep.Evaluations++
 	cj := caseJSON{ID: caseID(c.cfg.Idx, i, 0), Seed: rc.seed, Chain: c.cfg.Idx, Blocks: rc.blocks, Block: i, Mutant: "honest"}
+	var b *types.WorkObject
+	var err error
+	site := ""
+	func() {
+		defer func() {
+			if p := recover(); p != nil {
+				site = panicSite(string(debug.Stack()))
+				cj.Detail = fmt.Sprint("panic: ", p)
+			}
+		}()
+		b, err = z.Assemble(fill)
+	}()
+	rc.rep.Evaluations++
+	if site != "" {
+		rc.rep.Count("honest/worker-panic")
+		rc.rep.Fail("own-block/worker-panic/"+site, "the worker panicked while assembling a block on its own head ("+cj.Detail+"): no block can be produced from this pool / inbound queue", cj)
+		return true
+	}
 	if err != nil {
 		rc.rep.Fail("own-block/assemble-error", "the worker failed to assemble a block on its own head: "+err.Error(), cj)
 		return true
@@ -410,7 +427,20 @@ func (c *chain) step(rc *runCtx, i int) (stop bool) {
 	} else {
 		var known bool
 		some, rr, known, _ = observeExec(c.n, b)
-		err = z.Append(b)
+		func() {
+			defer func() {
+				if p := recover(); p != nil {
+					site = panicSite(string(debug.Stack()))
+					err = fmt.Errorf("panic: %v", p)
+				}
+			}()
+			err = z.Append(b)
+		}()
+		if site != "" {
+			rc.rep.Count("honest/validator-panic")
+			rc.rep.Fail("own-block/validator-panic/"+site, "the node's own validation panicked on a block assembled by its worker: "+err.Error(), cj)
+			return true
+		}
 		if err != nil {
 			verdict = classState(err)
 			cj.Verdict = verdictNames[verdict]
@@ -419,7 +449,17 @@ func (c *chain) step(rc *runCtx, i int) (stop bool) {
 			}
 			if rc.verbose {
 				for ti, t := range b.Transactions() {
-					fmt.Printf("   tx %d type %d etxtype %d to %v gas %d value %v data %x sender %v\n", ti, t.Type(), func() uint64 { if t.Type()==types.ExternalTxType { return t.EtxType() }; return 99 }(), t.To(), t.Gas(), t.Value(), t.Data(), func() string { if t.Type()==types.ExternalTxType { return t.ETXSender().Hex() }; return "" }())
+					fmt.Printf("   tx %d type %d etxtype %d to %v gas %d value %v data %x sender %v\n", ti, t.Type(), func() uint64 {
+						if t.Type() == types.ExternalTxType {
+							return t.EtxType()
+						}
+						return 99
+					}(), t.To(), t.Gas(), t.Value(), t.Data(), func() string {
+						if t.Type() == types.ExternalTxType {
+							return t.ETXSender().Hex()
+						}
+						return ""
+					}())
 				}
 			}
 			rc.rep.Fail("own-block/rejected-by-Append/"+verdictNames[verdict]+"/"+cj.ExecErr, "a block assembled by the worker is rejected by the node's own SetCurrentHeader: "+err.Error(), cj)
@@ -453,13 +493,36 @@ func (c *chain) step(rc *runCtx, i int) (stop bool) {
 		rc.rep.Count("pool/stale-head")
 	}
 	c.afterAppend(b)
-	if !c.funded || rd.Chance(45) {
+	if !c.funded || c.script != nil || rd.Chance(45) {
 		in := c.inbound(rd, b)
+		if c.script != nil {
+			in = append(in, c.script(c, i, b)...)
+		}
 		if len(in) > 0 {
 			rawdb.WriteInboundEtxs(c.n.db, b.Hash(), in)
 		}
 	}
 	return false
+}
+
+// panicSite names the innermost go-quai function on the stack of a recovered panic.
+func panicSite(stack string) string {
+	lines := strings.Split(stack, "\n")
+	seenPanic := false
+	for _, l := range lines {
+		if strings.HasPrefix(l, "panic(") {
+			seenPanic = true
+			continue
+		}
+		if seenPanic && strings.HasPrefix(l, "github.com/dominant-strategies/go-quai/") {
+			f := strings.TrimPrefix(l, "github.com/dominant-strategies/go-quai/")
+			if k := strings.LastIndex(f, "("); k > 0 {
+				f = f[:k]
+			}
+			return f
+		}
+	}
+	return "unknown"
 }
 
 func bucket(n int) string {
@@ -492,127 +555,170 @@ func (c *chain) runMutants(rc *runCtx, i int, b, parent *types.WorkObject, pre e
 	fake := etx(&types.ExternalTx{To: &fto, Gas: 100000, Value: bigPow10(20), EtxType: types.DefaultType, OriginatingTxHash: originHash(rm, common.Location{1, 0}), ETXIndex: 3, Sender: c.w.farQuai[2].addr})
 	muts := buildMutants(b, rm, foreign, fake, parent)
 
-	var sib *node
-	open := func() bool {
-		if sib != nil {
-			sib.z.Close()
-		}
-		var err error
-		sib, err = openNode(copyDb(pre, c.logger), c.w, c.cfg, c.logger)
+	// Mutants are processed in batches, one sibling node per batch (a new sibling, on a fresh copy of
+	// the pre-state, is opened whenever a mutant was accepted or left a trace). Within a batch: every
+	// mutant that passes ValidateBody is stored first (what Slice.Append writes for a candidate block
+	// before state processing), one baseline snapshot is taken, then each mutant goes through the real
+	// SetCurrentHeader with a snapshot after it, compared with the previous one.
+	next := 0
+	for next < len(muts) {
+		sib, err := openNode(copyDb(pre, c.logger), c.w, c.cfg, c.logger)
 		if err != nil {
 			rc.rep.Note("sibling open failed: " + err.Error())
-			sib = nil
-			return false
+			return
 		}
-		return true
-	}
-	if !open() {
-		return
-	}
-	defer func() {
-		if sib != nil {
-			sib.z.Close()
+		last := false
+		sib.z.Locked(func() {
+			next, last = c.mutantBatch(rc, i, b, parent, sib, muts, next)
+		})
+		sib.z.Close()
+		if last {
+			break
 		}
-	}()
+	}
+}
+
+func rollingFees(n *node) string {
+	a, b, c, d := n.z.VerifC07RollingFees()
+	return fmt.Sprint(a, b, c, d)
+}
+
+type mutEval struct {
+	m       *mutant
+	idx     int
+	cj      caseJSON
+	d       commits
+	bo      bodyObs
+	verdict int
+	bodyRej bool
+}
+
+// mutantBatch evaluates muts[from:] on sib until the sibling is no longer pristine; it returns the
+// index of the next mutant to evaluate and whether the battery is complete (including the final
+// honest-block check, which is done on a pristine sibling only).
+func (c *chain) mutantBatch(rc *runCtx, i int, b, parent *types.WorkObject, sib *node, muts []*mutant, from int) (int, bool) {
+	var evs []*mutEval
 	var mutHashes []common.Hash
-	clean := true
-	for mi, m := range muts {
+	// pass 1: ValidateBody (pure) and Store
+	for mi := from; mi < len(muts); mi++ {
+		m := muts[mi]
 		if rc.tgt != nil && rc.tgt.mutant != "" && rc.tgt.mutant != m.Name {
 			continue
 		}
-		id := caseID(c.cfg.Idx, i, mi+1)
-		cj := caseJSON{ID: id, Seed: rc.seed, Chain: c.cfg.Idx, Blocks: rc.blocks, Block: i, Mutant: m.Name, Number: b.NumberU64(common.ZONE_CTX), Txs: len(m.wo.Transactions()), Etxs: len(m.wo.OutboundEtxs())}
-		kind := m.Name
-		if k := strings.LastIndex(kind, "/"); strings.HasPrefix(kind, "body/") && k > 0 {
-			kind = kind[:k] + kind[k:]
-		}
-		rc.rep.Evaluations++
-		rc.mutCount++
-		mutHashes = append(mutHashes, m.wo.Hash())
-		d := declaredOf(m.wo)
-		bo := observeBody(sib, m.wo)
-		verdict := vOk
-		var some bool
-		var rr commits
-		emitCase := rc.tgt != nil || rc.mutCount%rc.caseEvery == 0
+		e := &mutEval{m: m, idx: mi}
+		e.cj = caseJSON{ID: caseID(c.cfg.Idx, i, mi+1), Seed: rc.seed, Chain: c.cfg.Idx, Blocks: rc.blocks, Block: i, Mutant: m.Name, Number: b.NumberU64(common.ZONE_CTX),
+			Txs: len(m.wo.Transactions()), Etxs: len(m.wo.OutboundEtxs())}
+		e.d = declaredOf(m.wo)
+		e.bo = observeBody(sib, m.wo)
 		func() {
 			defer func() {
 				if p := recover(); p != nil {
-					verdict = vExec
-					cj.Detail = fmt.Sprint("panic: ", p)
-					rc.rep.Fail("mutant/panic/"+mutClass(m.Name), "validation of a mutated block panicked: "+fmt.Sprint(p), cj)
-					clean = false
+					e.bodyRej, e.verdict = true, vUncles
+					e.cj.Detail = fmt.Sprint("panic: ", p)
+					rc.rep.Fail("mutant/panic-in-ValidateBody/"+m.Name, "ValidateBody of a mutated block panicked: "+fmt.Sprint(p), e.cj)
 				}
 			}()
-			vbErr := sib.z.ValidateBody(m.wo)
-			if vbErr != nil {
-				verdict = classBody(vbErr)
-				cj.BodyErr = verdictNames[verdict]
-				return
-			}
-			if emitCase {
-				var known bool
-				var perr error
-				some, rr, known, perr = observeExec(sib, m.wo)
-				if !known {
-					emitCase = false
-				}
-				_ = perr
-			}
-			sib.z.Store(m.wo)
-			before := takeSnap(sib.db)
-			err := sib.z.Hc.SetCurrentHeader(m.wo)
-			after := takeSnap(sib.db)
-			if err != nil {
-				verdict = classState(err)
-				if verdict == vExec {
-					cj.ExecErr = execClass(err)
-				}
-				diff, _ := diffSnaps(before, after)
-				if len(diff) > 0 {
-					cj.Diff = diff
-					if len(cj.Diff) > 12 {
-						cj.Diff = cj.Diff[:12]
-					}
-					rc.rep.Fail("rejected-block-left-trace/"+diffKinds(diff), fmt.Sprintf("a rejected block (%s) changed %d database keys", m.Name, len(diff)), cj)
-					clean = false
-				}
-				if hd := sib.z.Hc.CurrentHeader().Hash(); hd != parent.Hash() {
-					rc.rep.Fail("rejected-block-moved-head", "the in-memory head changed although SetCurrentHeader returned an error", cj)
-					clean = false
-				}
-			} else {
-				clean = false
-				if m.wo.Hash() == b.Hash() {
-					rc.rep.Fail("mutant-accepted/same-hash/"+mutClass(m.Name), "a mutated block with the original block hash was accepted", cj)
-				} else if !m.mayAccept {
-					rc.rep.Fail("mutant-accepted/"+mutClass(m.Name), "a block deviating from re-execution was accepted: "+m.Name, cj)
-				} else {
-					// a different candidate block: must commit to the very same results
-					dm := declaredOf(m.wo)
-					db_ := declaredOf(b)
-					dm.TxRoot, db_.TxRoot = common.Hash{}, common.Hash{}
-					if dm.coq() != db_.coq() {
-						rc.rep.Fail("mutant-accepted/other-results/"+mutClass(m.Name), "an accepted reordering commits to different results", cj)
-					}
-					rc.rep.Count("accepted-equivalent/" + mutClass(m.Name))
-				}
+			if vbErr := sib.z.ValidateBody(m.wo); vbErr != nil {
+				e.bodyRej, e.verdict = true, classBody(vbErr)
+				e.cj.BodyErr = verdictNames[e.verdict]
 			}
 		}()
-		cj.Verdict = verdictNames[verdict]
-		rc.rep.Count("mutant/" + mutClass(m.Name) + "→" + verdictNames[verdict])
-		if verdict != vOk {
-			rc.rep.Nontrivial("m/" + mutClass(m.Name) + "/" + verdictNames[verdict] + "/" + cj.ExecErr)
+		if !e.bodyRej && !m.staleSeal {
+			sib.z.Store(m.wo)
+			mutHashes = append(mutHashes, m.wo.Hash())
+		}
+		evs = append(evs, e)
+	}
+	base := takeSnap(sib.db)
+	// pass 2: the real SetCurrentHeader
+	for k, e := range evs {
+		m := e.m
+		rc.rep.Evaluations++
+		rc.mutCount++
+		emitCase := rc.tgt != nil || rc.mutCount%rc.caseEvery == 0
+		var some bool
+		var rr commits
+		pristine := true
+		if !e.bodyRej {
+			func() {
+				defer func() {
+					if p := recover(); p != nil {
+						e.verdict = vExec
+						e.cj.Detail = fmt.Sprint("panic: ", p)
+						rc.rep.Fail("mutant/panic/"+m.Name, "validation of a mutated block panicked: "+fmt.Sprint(p), e.cj)
+						pristine = false
+						emitCase = false
+					}
+				}()
+				if emitCase {
+					var known bool
+					some, rr, known, _ = observeExec(sib, m.wo)
+					if !known {
+						emitCase = false
+					}
+				}
+				if m.staleSeal { // same hash as the original: stored just in time
+					sib.z.Store(m.wo)
+					mutHashes = append(mutHashes, m.wo.Hash())
+					base = takeSnap(sib.db)
+				}
+				feesBefore := rollingFees(sib)
+				err := sib.z.Hc.SetCurrentHeader(m.wo)
+				after := takeSnap(sib.db)
+				if err != nil && rollingFees(sib) != feesBefore {
+					// in-memory, not chain state: Process updates the fee oracle's rolling statistics before ValidateState runs
+					rc.rep.Count("observation/rolling-fee-stats-changed-by-rejected-block")
+				}
+				if err != nil {
+					e.verdict = classState(err)
+					if e.verdict == vExec {
+						e.cj.ExecErr = execClass(err)
+					}
+					diff, _ := diffSnaps(base, after)
+					if len(diff) > 0 {
+						e.cj.Diff = diff
+						if len(e.cj.Diff) > 12 {
+							e.cj.Diff = e.cj.Diff[:12]
+						}
+						rc.rep.Fail("rejected-block-left-trace/"+diffKinds(diff), fmt.Sprintf("a rejected block (%s) changed %d database keys", m.Name, len(diff)), e.cj)
+						pristine = false
+					}
+					if hd := sib.z.Hc.CurrentHeader().Hash(); hd != parent.Hash() {
+						rc.rep.Fail("rejected-block-moved-head", "the in-memory head changed although SetCurrentHeader returned an error", e.cj)
+						pristine = false
+					}
+				} else {
+					pristine = false
+					if m.wo.Hash() == b.Hash() {
+						rc.rep.Fail("mutant-accepted/same-hash/"+m.Name, "a mutated block with the original block hash was accepted", e.cj)
+					} else if !m.mayAccept {
+						rc.rep.Fail("mutant-accepted/"+m.Name, "a block deviating from re-execution was accepted: "+m.Name, e.cj)
+					} else {
+						// a different candidate block: must commit to the very same results
+						dm, db_ := declaredOf(m.wo), declaredOf(b)
+						dm.TxRoot, db_.TxRoot = common.Hash{}, common.Hash{}
+						if dm.coq() != db_.coq() {
+							rc.rep.Fail("mutant-accepted/other-results/"+m.Name, "an accepted reordering commits to different results", e.cj)
+						}
+						rc.rep.Count("accepted-equivalent/" + m.Name)
+					}
+				}
+				base = after
+			}()
+		}
+		e.cj.Verdict = verdictNames[e.verdict]
+		rc.rep.Count("mutant/" + m.Name + "→" + verdictNames[e.verdict])
+		if e.verdict != vOk {
+			rc.rep.Nontrivial("m/" + m.Name + "/" + verdictNames[e.verdict] + "/" + e.cj.ExecErr)
 		}
 		if emitCase {
-			rc.emit(id, d, bo, some, rr, verdict, cj)
+			rc.emit(e.cj.ID, e.d, e.bo, some, rr, e.verdict, e.cj)
 		}
-		if !clean {
-			if !open() {
-				return
+		if !pristine {
+			if k+1 < len(evs) {
+				return evs[k+1].idx, false
 			}
-			clean = true
-			mutHashes = nil
+			return len(muts), false // one more (pristine) sibling for the final check
 		}
 	}
 	// after all rejected mutants the honest block must still be accepted and lead to the same database
@@ -645,9 +751,10 @@ func (c *chain) runMutants(rc *runCtx, i int, b, parent *types.WorkObject, pre e
 				}
 				rc.rep.Fail("honest-after-mutants/db-differs/"+diffKinds(extra), fmt.Sprintf("sibling database (rejected mutants + honest block) differs from the primary in %d keys that are not records of the stored mutants", len(extra)), cj)
 			}
-			rc.rep.Count("honest-after-mutants/ok")
+			rc.rep.Count(fmt.Sprintf("honest-after-mutants/ok"))
 		}
 	}
+	return len(muts), true
 }
 
 func mutClass(name string) string {
